@@ -202,8 +202,13 @@ def strip_attrs(s):
     return s
 
 
+LAYOUTS = {}          # C record name -> {offset: field name} (from clang -fdump-record-layouts)
+IMMUTABLE = set()     # e.g. {"%struct.uring"}: fields written only before the threads start
+
+
 class Gen:
     def __init__(self, structs, fn):
+        self.immutable_ptrs = set()
         self.structs = structs
         self.fn = fn
         self.types = {}          # ssa -> T
@@ -374,9 +379,8 @@ class Gen:
         if op in ("cmpxchg", "atomicrmw"):
             return True
         if op == "load":
-            ptr = s.rsplit(",", 1)[0].split()[-1] if ", align" in s else s.split()[-1]
             pm = re.search(r"\* (%[\w.]+|@[\w.]+)", s)
-            return not (pm and pm.group(1) in self.local_ptrs)
+            return not (pm and (pm.group(1) in self.local_ptrs or pm.group(1) in self.immutable_ptrs))
         if op == "store":
             pm = re.search(r"\* (%[\w.]+|@[\w.]+)(?:, align \d+)?$", s)
             return not (pm and pm.group(1) in self.local_ptrs)
@@ -406,11 +410,20 @@ class Gen:
                         if any(x in self.local_ptrs for x in srcs):
                             self.local_ptrs.add(m.group(1))
                             changed = True
+        for raw in fn.body.split("\n"):
+            s2 = strip_attrs(raw.strip())
+            m = re.match(r"^(%[\w.]+) = getelementptr (%[\w.]+), \S+ %[\w.]+, i64 0((?:, i32 \d+)*)$", s2)
+            if m:
+                path = ".".join(re.findall(r"i32 (\d+)", m.group(3)))
+                for spec in IMMUTABLE:      # "type:path-prefix" (path = constant field indices after the leading 0)
+                    ty, _, pre = spec.partition(":")
+                    if ty == m.group(2) and (path == pre or path.startswith(pre + ".") or pre == ""):
+                        self.immutable_ptrs.add(m.group(1))
         body = self.run()
         L = []
         name = fn.name
         L.append("struct F_%s {" % name)
-        L.append("    int pc, prev;")
+        L.append("    int pc, prev, budget;")
         if fn.ret.kind != "void":
             L.append("    %s ret;" % ctype(fn.ret))
         for ssa, t in self.types.items():
@@ -425,11 +438,18 @@ class Gen:
         L.append("};")
         L.append("static bool S_%s(struct F_%s *f)" % (name, name))
         L.append("{")
-        L.append("    bool did = false;")
-        L.append("    for (;;) switch (f->pc) {")
+        # one multiplexer at entry, then ordinary labels and gotos: forward branches cost nothing, back edges (CAS
+        # retry loops) are ordinary loops for CBMC.  The function runs until f->budget visible instructions are done.
+        L.append("    switch (f->pc) {")
+        for item in body:
+            if item[0] == "vis":
+                L.append("        case %d: goto L_%d;" % (item[1], item[1]))
+        L.append("        case 0: goto L_0;")
+        L.append("        default: VERIF_SEQZ_BAD_PC(); return true;")
+        L.append("    }")
         for item in body:
             if item[0] == "label":
-                L.append("    case %d: /* block %s */" % (item[1], item[2]))
+                L.append("    L_%d: ; /* block %s */" % (item[1], item[2]))
             elif item[0] == "phis":
                 tmp = []
                 for k, s in enumerate(item[1]):
@@ -445,15 +465,12 @@ class Gen:
                     L.append("        f->%s = t%d;" % (self.cname(ssa), k))
                 L.append("        " + "}" * len(tmp))
             elif item[0] == "vis":
-                L.append("        f->pc = %d;" % item[1])
-                L.append("    case %d:" % item[1])
-                L.append("        if (did) return false;")
-                L.append("        did = true;")
+                L.append("    L_%d: ;" % item[1])
+                L.append("        if (f->budget <= 0) { f->pc = %d; return false; }" % item[1])
+                L.append("        f->budget--;")
             else:
                 for l in self.ins(item[1], item[2]):
                     L.append("        " + l)
-        L.append("    default: VERIF_SEQZ_BAD_PC(); return true;")
-        L.append("    }")
         L.append("}")
         return "\n".join(L)
 
@@ -520,6 +537,9 @@ class Gen:
                 parts = [x.strip() for x in rest.split(",")]
                 _, j2 = parse_type(parts[0], 0, st)
                 base = parts[0][j2:].strip()
+                typed = self.gep_typed(tt, base, parts[1:])
+                if typed is not None:
+                    return ["%s = %s;" % (dst, typed)]
                 expr = "(char *)%s" % self.val(base)
                 curt = tt
                 for k, p in enumerate(parts[1:]):
@@ -587,18 +607,17 @@ class Gen:
         if op == "br":
             mm = re.match(r"br label (%[\w.]+)$", s)
             if mm:
-                return ["f->prev = %d; f->pc = %d; continue;" % (here, self.blockseg[mm.group(1)])]
+                return ["f->prev = %d; goto L_%d;" % (here, self.blockseg[mm.group(1)])]
             mm = re.match(r"br i1 ([^,]+), label (%[\w.]+), label (%[\w.]+)$", s)
-            return ["f->prev = %d; f->pc = %s ? %d : %d; continue;" % (here, self.val(mm.group(1)), self.blockseg[mm.group(2)], self.blockseg[mm.group(3)])]
+            return ["f->prev = %d; if (%s) goto L_%d; else goto L_%d;" % (here, self.val(mm.group(1)), self.blockseg[mm.group(2)], self.blockseg[mm.group(3)])]
         if op == "switch":
             mm = re.match(r"switch (.+?) (%[\w.]+), label (%[\w.]+) \[(.*)\]$", s)
             tt, _ = parse_type(mm.group(1), 0, st)
             out = ["f->prev = %d;" % here, "switch (%s) {" % self.mask(self.val(mm.group(2)), tt)]
             for cm in re.finditer(r"i\d+ (-?\d+), label (%[\w.]+)", mm.group(4)):
-                out.append("    case %s: f->pc = %d; break;" % (self.val(cm.group(1), tt), self.blockseg[cm.group(2)]))
-            out.append("    default: f->pc = %d; break;" % self.blockseg[mm.group(3)])
+                out.append("    case %s: goto L_%d;" % (self.val(cm.group(1), tt), self.blockseg[cm.group(2)]))
+            out.append("    default: goto L_%d;" % self.blockseg[mm.group(3)])
             out.append("}")
-            out.append("continue;")
             return out
         if op == "ret":
             if s.strip() == "ret void":
@@ -622,6 +641,44 @@ class Gen:
         if op == "fence":
             return ["/* fence */"]
         raise SeqzError("unsupported: " + s)
+
+    def gep_typed(self, tt, base, idxs):
+        """typed address expression `(char *)&((struct X *)p)[i].field...` when the C layout of X is known: CBMC then
+        sees an array/struct access instead of byte arithmetic (30x smaller formulas on the ring buffers)"""
+        st = self.structs
+        if tt.kind != "named" or not tt.name.startswith("%struct."):
+            return None
+        cname = tt.name[len("%struct."):]
+        if cname not in LAYOUTS:
+            return None
+        it, j = parse_type(idxs[0], 0, st)
+        expr = "((struct %s *)%s)[(int64_t)%s]" % (cname, self.val(base), self.signed(self.val(idxs[0][j:].strip(), it), it))
+        curt, curname = st[tt.name], cname
+        for p in idxs[1:]:
+            it, j = parse_type(p, 0, st)
+            idx = p[j:].strip()
+            if curt.kind == "struct":
+                if curname is None or curname not in LAYOUTS or not re.match(r"^\d+$", idx):
+                    return None
+                off, ft = field_offset(curt, int(idx), st)
+                fname = LAYOUTS[curname].get(off)
+                if fname is None:
+                    return None
+                expr += "." + fname
+                if ft.kind == "named" and ft.name.startswith("%struct."):
+                    curname, curt = ft.name[len("%struct."):], st[ft.name]
+                else:
+                    curname, curt = None, ft
+            elif curt.kind == "array":
+                expr += "[(int64_t)%s]" % self.signed(self.val(idx, it), it)
+                et = curt.elem
+                if et.kind == "named" and et.name.startswith("%struct."):
+                    curname, curt = et.name[len("%struct."):], st[et.name]
+                else:
+                    curname, curt = None, et
+            else:
+                return None
+        return "(char *)&" + expr
 
     def call(self, rhs, dst, t):
         st = self.structs
@@ -669,7 +726,29 @@ class Gen:
         return [call + ";"]
 
 
-def translate(text, only=None):
+def parse_layouts(dump):
+    """clang -Xclang -fdump-record-layouts output -> {record: {offset: field}} (depth-1 fields only)"""
+    out = {}
+    cur = None
+    for line in dump.splitlines():
+        m = re.match(r"^\s*(\d+) \| (struct|union) (\w+)$", line)
+        if m:
+            cur = m.group(3) if m.group(2) == "struct" else None
+            if cur:
+                out[cur] = {}
+            continue
+        m = re.match(r"^\s*(\d+) \|   (\S.*?)\b(\w+)$", line)
+        if m and cur:
+            out[cur].setdefault(int(m.group(1)), m.group(3))
+        if line.strip().startswith("| [sizeof"):
+            cur = None
+    return out
+
+
+def translate(text, only=None, immutable=(), layouts=None):
+    global IMMUTABLE, LAYOUTS
+    IMMUTABLE = set(immutable)
+    LAYOUTS = layouts or {}
     structs, fns = parse_module(text)
     out = ["/* generated by vlib/seqz.py from LLVM IR of the real headers -- do not edit */"]
     names = []
